@@ -25,6 +25,7 @@ import (
 	"image/png"
 	"io"
 	"log"
+	"math"
 	"os"
 	"path/filepath"
 	"reflect"
@@ -842,7 +843,7 @@ func (g *c12Gen) randFloat() float64 {
 	case 2:
 		return r.Float64() * 1e-9
 	case 3:
-		return []float64{0, 1e21, 1e-7, 123456789.125, -0.1, 5e-324, 1.7976931348623157e308}[r.Intn(7)]
+		return []float64{0, math.Copysign(0, -1), 1e21, 1e-7, 123456789.125, -0.1, 5e-324, 1.7976931348623157e308}[r.Intn(8)]
 	}
 	return r.Float64()*200 - 100
 }
@@ -881,6 +882,10 @@ func (g *c12Gen) randMessageFor(id string) []byte {
 	switch r.Intn(5) {
 	case 0, 1:
 		g.c.Note("value.zero")
+		if ty == c12Float && r.Intn(2) == 0 {
+			g.c.Note("value.negative-zero")
+			return []byte("-0") // 0.0 == -0.0, but 1/x, %g and binary formats tell them apart
+		}
 		return c12ZeroMessage(ty)
 	case 2:
 		if pv, ok := c12ParamView(g.inst.Node(id)); ok && pv.dflt != nil && ty != c12File {
@@ -1023,8 +1028,19 @@ func (g *c12Gen) connect(src, dst, port string) {
 	})
 }
 
+// somebody looks at the artifacts in the middle of the session (a preview): from now on the runtime has caches,
+// versions and remembered dependency versions, and later edits must still show up — at the end the artifacts of the
+// edited application are compared with those of the reloaded one
+func (g *c12Gen) preview() {
+	c12Artifacts(g.app)
+	g.c.Note("mid.artifact-read")
+}
+
 func (g *c12Gen) step() {
 	r := g.c.Rng
+	if r.Intn(10) == 0 {
+		g.preview()
+	}
 	k := r.Intn(100)
 	switch {
 	case k < 14 || len(g.ids) == 0:
@@ -1696,6 +1712,33 @@ func c12History(c *Ctx, t *c12Types, i int) {
 	for j := 0; j < n; j++ {
 		g.step()
 	}
+	if i%5 == 2 {
+		// preview, THEN the last edits: (a) a float flips between 0 and -0 under a producer that prints its sign,
+		// (b) a producer loses its LAST input after it has been evaluated
+		text := g.create(c12TextT)
+		f := g.create(c12Float)
+		first, second := "0", "-0"
+		if r.Intn(2) == 0 {
+			first, second = second, first
+		}
+		g.setValue(f, []byte(first))
+		g.connect(f, text, "Nums.0")
+		g.do("P "+hs(text)+" "+hs("sign.txt"), func() string { g.inst.SetNodeAsProducer(text, "sign.txt"); return "ok" })
+		g.preview()
+		g.setValue(f, []byte(second))
+		text2 := g.create(c12TextT)
+		sp := g.create(c12String)
+		g.setValue(sp, []byte(`"shown in the preview"`))
+		port := []string{"Title", "Parts.0"}[r.Intn(2)]
+		g.connect(sp, text2, port)
+		g.do("P "+hs(text2)+" "+hs("last.txt"), func() string { g.inst.SetNodeAsProducer(text2, "last.txt"); return "ok" })
+		g.preview()
+		g.do("D "+hs(text2)+" "+hs(port), func() string { g.inst.DeleteNodeInputConnection(text2, port); return "ok" })
+		if r.Intn(2) == 0 {
+			g.preview()
+		}
+		c.Note("shape.preview-then-edit")
+	}
 	if i%10 == 7 && g.files == 0 {
 		// a File parameter whose payload is set but has length zero (it is the only binary payload, hence the last view)
 		fid := g.create(c12File)
@@ -2166,7 +2209,65 @@ func c12RepoFiles(c *Ctx, t *c12Types) {
 
 // ---------------------------------------------------------------- File / Image parameter payloads (spot checks; residue of the proof)
 
+// File parameters declared in CODE can have a DefaultValue (editor-created ones cannot).  The payload the parameter
+// holds — the default while nothing is applied, else the applied bytes — must survive save -> load, also when the
+// default is non-empty and differs from the applied value.  (On the pinned tree the default itself is never written:
+// observation in notes; only the VALUE, the producer's artifact and the re-save are compared here.)
+func c12CodeDefinedFiles(c *Ctx) {
+	r := c.Rng
+	n := 8
+	if c.Tier == "thorough" {
+		n = 200
+	}
+	for i := 0; i < n; i++ {
+		dflt := make([]byte, 1+r.Intn(9))
+		r.Read(dflt)
+		fp := &parameter.File{Name: "blob", DefaultValue: dflt}
+		app := &generator.App{Files: map[string]nodes.NodeOutput[artifact.Artifact]{"blob.bin": basics.NewBinaryNode(fp.Out())}}
+		inst := c12Instance(app)
+		applied := i%2 == 1
+		if applied {
+			cur := make([]byte, r.Intn(9))
+			r.Read(cur)
+			fp.ApplyMessage(cur)
+		}
+		res := Guard(func() string {
+			live := append([]byte{}, fp.Value()...)
+			art := func(in *graph.Instance) string {
+				var buf bytes.Buffer
+				if err := in.Artifact("blob.bin").Write(&buf); err != nil {
+					return "err"
+				}
+				return hb(buf.Bytes())
+			}
+			a1 := art(inst)
+			s1 := app.Schema()
+			fresh := &generator.App{}
+			fi := c12Instance(fresh)
+			if err := fresh.ApplySchema(s1); err != nil {
+				return "err-apply"
+			}
+			var reloaded []byte
+			var sa schema.App
+			fi.EncodeToAppSchema(&sa, &jbtf.Encoder{})
+			for id, nd := range sa.Nodes {
+				if strings.HasSuffix(nd.Type, "parameter.File") {
+					reloaded = fi.Node(id).(*parameter.File).Value()
+				}
+			}
+			s2 := fresh.Schema()
+			return strings.Join([]string{hs("ok"), hb(live), hb(reloaded), a1, art(fi), hs(string(s1)), hs(string(s2))}, " ")
+		})
+		if !strings.HasPrefix(res, "s") {
+			res = hs(res) + " s s s s s s"
+		}
+		c.Emit("c12.holds.codefile_value_kept", B(applied)+" "+res, "true")
+		c.Note(fmt.Sprintf("codefile.applied-%v", applied))
+	}
+}
+
 func runC12FileParams(c *Ctx) {
+	c12CodeDefinedFiles(c)
 	r := c.Rng
 	for i := 0; i < c.N; i++ {
 		app := &generator.App{}
